@@ -25,6 +25,7 @@ type ExecOpts struct {
 	MaxDepth       int    // unwinding: call depth
 	Termination    bool   // exceeding the budget is a violation candidate (C02, C16), not inconclusive
 	Races          bool   // happens-before race detection
+	RealSyslog     bool   // execute go-kid/ioc's own syslog package from SSA (only the stdlib log.Logger leaf is a no-op)
 }
 
 type traceEnt struct {
